@@ -238,7 +238,14 @@ MIXED = [['in1', 5], [None, 'in2'], ['in1', ['in2']], [b'in1', 'in2']]
 
 ARITH_INPUT = {('python', 'ZeroDivisionError'): '1/(x-x)', ('python', 'OverflowError'): '2^9999',
                ('numpy', 'ZeroDivisionError'): '[1,2]/(x-x)', ('numpy', 'OverflowError'): '[1e308,1]*10',
-               ('numpy', 'ValueError'): '[0,0]/(x-x)'}
+               # the numpy "invalid" flag (NpHandler -> ValueError) is modelled in ErrorChannel.tla, but since the
+               # library repair c7cf3ba ([0,0]/0 is a division by zero like [1,0]/0) no formula is known that
+               # still raises it through array arithmetic: those model states have no concrete input to replay
+               }
+
+
+class NoConcreteInput(Exception):
+    """the model state has no known concrete realisation (skipped, not a drift)"""
 
 
 def build_case(c, fault, infer_fault, origin=None):
@@ -299,6 +306,8 @@ def build_case(c, fault, infer_fault, origin=None):
             g = SumGrader(answers={'lower': '1', 'upper': '3', 'summand': 'n', 'summation_variable': 'n'},
                           input_positions={'summand': 1}, user_functions={'f': f}, **cfg)
     elif gk == 'formulaop':
+        if fault is not None and (origin.get('src', 'python'), origin['cls']) not in ARITH_INPUT:
+            raise NoConcreteInput()
         names = ['x+1' if fault is None else ARITH_INPUT[(origin.get('src', 'python'), origin['cls'])]]
         g = MatrixGrader(answers='x+1', variables=['x'], max_array_dim=1, **cfg)
     else:
@@ -424,6 +433,8 @@ def replay_states(states, extra):
                 fault = ex
         try:
             g, expect, inp, kw, names = build_case(c, fault, infer_fault, origin)
+        except NoConcreteInput:
+            continue
         except Exception as e:  # noqa -- the instrument could not be built: machinery, reported by run()
             drifts.append('instrument for %s could not be built: %s %s' % (c['gk'], type(e).__name__, e))
             continue
@@ -622,6 +633,11 @@ def real_graders(debug):
     G['string-any'] = (StringGrader(accept_any=True, min_words=2, explain_minimums='msg', debug=debug), 'single', 0, None)
     G['list-siblings'] = (ListGrader(answers=['2', '4'], ordered=True, subgraders=FormulaGrader(), debug=debug),
                           'multi', 2, None)
+    # answers that are computed from the other input boxes: the students' own texts become dependent variables
+    G['list-sibling-refs'] = (ListGrader(answers=['sibling_2*sibling_3', '2', '3'], ordered=True,
+                                         subgraders=FormulaGrader(variables=['x']), debug=debug), 'multi', 3, None)
+    G['list-sibling-chain'] = (ListGrader(answers=['sibling_2+1', 'sibling_3+1', '3'], ordered=True,
+                                          subgraders=FormulaGrader(), debug=debug), 'multi', 3, None)
     # unconfigured item graders: the answer is inferred from the expect value of every call (hostile as well)
     G['infer-formula'] = (form(debug=debug), 'single', 0, None)
     G['infer-numerical'] = (NumericalGrader(debug=debug), 'single', 0, None)
